@@ -241,7 +241,7 @@ class Gen:
             return [sp + "var!(*[%s])" % L]
         if k == "dflt":
             p = self.fresh("p") + "!"
-            a = self.fresh("ml")
+            a = self.fresh("d")          # the type inferred for such a parameter is not a mutable type
             return [sp + "%s(%s := %s) =" % (p, a, L), sp + "    print! %s" % a]
         if k == "use":
             form = r.choice(["print! %s", "print! %s, 1", "print! [%s]", "print! 1, (%s, 2)", "print!(%s, end := \"\")", "print! %s.copy()"])
@@ -479,6 +479,65 @@ def evaluate(ctx, h, model, cases):
     return results
 
 
+# ------------------------------------------------------------------ systematic placements: the property statement, literally
+# {v}: the variable under test; ml8 / ml5: other mutable variables defined before
+MOVES = {
+    "rebind": "ml9 = {v}", "list": "i9 = [{v}]", "tuple": "i9 = ({v}, 1)", "dict": "i9 = {{1: {v}}}",
+    "record": "i9 = {{.a = {v}; .b = 1}}", "nested": "i9 = [[{v}], [![0]]]", "listlen": "i9 = [{v}; 1]",
+    "own": "own! {v}", "two_first": "two! {v}, ml8", "owt_second": "owt! ml8, {v}", "kw": "own!(x := {v})",
+    "kw_two": "two!(b := ml8, a := {v})", "dfl_kw": "dfl!(ml8, b := {v})", "dfl_pos": "dfl! ml8, {v}", "dfr": "dfr! {v}",
+    "mo_first": "c.mo! {v}, ml8", "mt_second": "c.mt! ml8, {v}", "blockval": "ml9 =\n    i7 = 1\n    {v}",
+    "asc": "ml9 = ({v}: List!(Int, _))",
+}
+NONMOVES = {
+    "brw": "brw! {v}", "brm": "brm! {v}", "imm": "imm! {v}", "gen": "gen! {v}", "var": "var! {v}, {v}", "print": "print! {v}",
+    "printlist": "print! [{v}]", "star": "var!(*[{v}])", "bare": "{v}", "two_second": "two! ml8, {v}", "owt_first": "owt! {v}, ml8",
+    "mt_first": "c.mt! {v}, ml8", "mo_second": "c.mo! ml8, {v}", "push": "{v}.push! 1", "dflt": "p7!(d7 := {v}) =\n    print! d7",
+    "retproc": "p7!() = {v}", "retlam": "if! True, do! {v}", "dfr_kw": "dfr!(ml8, b := {v})", "none": "i9 = 1",
+}
+USES = {
+    "print": "print! {v}", "receiver": "{v}.push! 2", "rebind": "ml6 = {v}", "list": "i6 = [{v}]", "kw": "own!(x := {v})",
+    "star": "var!(*[{v}])", "dflt": "p6!(d6 := {v}) =\n    print! d6", "method": "c.mt! {v}, ml5", "borrow": "brw! {v}", "bare": "{v}",
+    "nestedproc": "p6!() =\n    print! {v}", "lambda": "for! [1, 2], _ =>\n    print! {v}", "deep": "print! [({v}, 1)], {{1: [{v}]}}",
+}
+WRAPS = ["module", "proc", "lambda", "inner_move", "param"]
+
+
+def indent(text, n):
+    return "\n".join(" " * n + l for l in text.split("\n"))
+
+
+def placement(first, use, wrap):
+    """(source after the prelude, label): v defined, then `first` (a moving or a non-moving statement), then `use`"""
+    v = "ml1"
+    a, u = first.format(v=v), use.format(v=v)
+    pre = "ml8 = ![8]\nml5 = ![5]\n"
+    if wrap == "module":
+        return pre + "ml1 = ![1, 2]\n%s\n%s\n" % (a, u)
+    if wrap == "proc":
+        return "p2!() =\n" + indent(pre + "ml1 = ![1, 2]\n%s\n%s\nprint! 0" % (a, u), 4) + "\np2!()\n"
+    if wrap == "lambda":
+        return pre + "ml1 = ![1, 2]\nfor! [1, 2], _ =>\n" + indent("%s\n%s\nprint! 0" % (a, u), 4) + "\n"
+    if wrap == "inner_move":
+        return pre + "ml1 = ![1, 2]\nif! True, do!:\n" + indent("%s\nprint! 0" % a, 4) + "\n%s\n" % u
+    if wrap == "param":
+        return pre + "p2! ml1: List!(Int, _) =\n" + indent("%s\n%s\nprint! 0" % (a, u), 4) + "\n"
+    raise AssertionError(wrap)
+
+
+def systematic_cases(rng=None, sample=None):
+    combos = [(k, a, True) for k, a in MOVES.items()] + [(k, a, False) for k, a in NONMOVES.items()]
+    allc = [(fk, fa, mv, uk, ua, w) for (fk, fa, mv) in combos for uk, ua in USES.items() for w in WRAPS]
+    if sample is not None and len(allc) > sample:
+        allc = rng.sample(allc, sample)
+    out = []
+    for fk, fa, mv, uk, ua, w in allc:
+        c = Case(PREAMBLE + placement(fa, ua, w), "systematic", None, "%s then %s in %s" % (fk, uk, w))
+        c.expect_uam = mv          # the property statement: a use after a moving statement is rejected, after any other it is not
+        out.append(c)
+    return out
+
+
 def corpus_cases():
     out = []
     d = os.path.join(VERIF, "corpus", "C23")
@@ -520,15 +579,18 @@ def run(ctx):
     proof = ctx.coq(["Owner/Props_C23.v"])
     h = Harness(ctx, "owner", env=ctx.erg_env())
     model = ctx.model("Owner")
-    cases = corpus_cases() + gen_cases(ctx, ctx.scale(700, 20000))
+    cases = corpus_cases() + systematic_cases(ctx.rng, ctx.scale(150, None)) + gen_cases(ctx, ctx.scale(450, 6000))
+    if ctx.thorough:
+        ctx.cov["exhaustive_small_scope"] = ("every moving statement (%d) and every non-moving statement (%d) followed by every kind of "
+                                             "use (%d) in every scope arrangement (%d)" % (len(MOVES), len(NONMOVES), len(USES), len(WRAPS)))
     ctx.log("%d cases" % len(cases))
     results = evaluate(ctx, h, model, cases)
     report(ctx, proof, h, model, results)
 
 
 def report(ctx, proof, h, model, results):
-    n_corr = n_facts = n_invalid = n_outside = 0
-    first_corr = first_facts = None
+    n_corr = n_facts = n_invalid = n_outside = n_spec = 0
+    first_corr = first_facts = first_spec = None
     viol = []
     for r in results:
         c = r["case"]
@@ -554,12 +616,17 @@ def report(ctx, proof, h, model, results):
         if r["facts"]:
             n_facts += 1
             first_facts = first_facts or {"src": c.src, "detail": r["facts"]}
+        exp = getattr(c, "expect_uam", None)
+        if exp is not None and ok and exp != (len(j["uams"]) > 0):
+            n_spec += 1
+            first_spec = first_spec or {"src": c.src, "detail": {"label": c.label, "statement says use-after-move": exp, "Spec": j["uams"]}}
         if j["verdict"] != 0 and (ok or j["verdict"] == 3):
             viol.append((r, j, VERDICT[j["verdict"]]))
     ctx.cov["not_analysed"] = n_invalid
     ctx.cov["outside_assumptions"] = n_outside
     ctx.cov["type_fact_mismatches"] = n_facts
     ctx.cov["model_disagreements"] = n_corr
+    ctx.cov["spec_vs_statement_mismatches"] = n_spec
     seen = set()
     for r, j, what in viol:
         if what in seen or len(seen) >= 3:
@@ -567,8 +634,14 @@ def report(ctx, proof, h, model, results):
         seen.add(what)
         c = r["case"]
         src = shrink_source(ctx, h, model, c, j) if c.groups else c.src
+        if src != c.src:
+            r2 = evaluate(ctx, h, model, [Case(src, "shrunk", None, c.label)])[0]
+            if r2["judge"] is not None and r2["judge"]["verdict"] == j["verdict"]:
+                r, j = r2, r2["judge"]
+            else:
+                src = c.src
         ctx.violation("failing-input", what, case={"src": src, "label": c.label}, impl=r["impl"], model=r["model"], judge=j)
-    if not viol and (n_corr or n_facts or not proof.ok):
+    if not viol and (n_corr or n_facts or n_spec or not proof.ok):
         what = []
         if not proof.ok:
             what.append("theorem(s) no longer check: " + proof.summary())
@@ -576,8 +649,10 @@ def report(ctx, proof, h, model, results):
             what.append("%d programs on which the extracted model and OwnershipChecker differ" % n_corr)
         if n_facts:
             what.append("%d programs whose lowered tree carries other type facts than the generator declared" % n_facts)
-        ctx.violation("broken-correspondence" if (n_corr or n_facts) else "broken-theorem", "; ".join(what),
-                      case=first_corr or first_facts, theorem=proof.summary() or None, no_input=True)
+        if n_spec:
+            what.append("%d systematic programs on which the Spec's moved-set semantics and the property statement differ" % n_spec)
+        ctx.violation("broken-correspondence" if (n_corr or n_facts or n_spec) else "broken-theorem", "; ".join(what),
+                      case=first_corr or first_facts or first_spec, theorem=proof.summary() or None, no_input=True)
 
 
 def shrink_source(ctx, h, model, c, j):
